@@ -18,6 +18,7 @@ Item directives
                                                         original text as a substring; e.g. closure ensures)
       //@closure <<<|params|>>> => <<<|typed params| -> (o: T) ensures E>>>   wrap the closure body in a block
       //@invariant <n>      raw lines until //@endinvariant: loop invariant for the n-th loop of the body
+      //@afterloop <n> <<<ghost stmt>>>   inserted right after the n-th loop of the body (insert-only)
   //@end
 
 Automatic rewrite rules, applied to every extracted body and logged:
@@ -472,6 +473,7 @@ def expand(template_path, std=True):
             annots = []
             closures = []
             invariants = {}
+            afterloops = {}
             panic_args = {}
             prepends = []
             appends = []
@@ -512,6 +514,9 @@ def expand(template_path, std=True):
                 elif t.startswith("//@closure "):
                     mm = re.match(r"//@closure <<<(.*?)>>> => <<<(.*?)>>>(?: let <<<(.*)>>>)?\s*$", t)
                     closures.append((mm.group(1), mm.group(2), mm.group(3) or ""))
+                elif t.startswith("//@afterloop "):
+                    mm = re.match(r"//@afterloop (\d+) <<<(.*)>>>\s*$", t)
+                    afterloops[int(mm.group(1))] = mm.group(2)
                 elif t.startswith("//@invariant "):
                     k = int(t.split()[1])
                     inv = []
@@ -657,6 +662,9 @@ def expand(template_path, std=True):
                 if clet:
                     g.log.rule("Rclosure: a closure parameter pattern becomes a variable + `let <pattern> = <variable>;` (Verus closures take variables only)")
                 g.log.rule("Rclosure: closure given typed parameters and an `ensures`; its body text is unchanged")
+            if afterloops:
+                body = splice_afterloops(body, afterloops, name)
+                g.log.rule("Rannot: insert-only annotation (ghost iterator name / ghost statement); code text unchanged")
             if invariants:
                 body = splice_invariants(body, invariants, name)
             check_loops_annotated(body, name)
@@ -700,6 +708,29 @@ def check_loops_annotated(body, name):
         if not re.search(r"\binvariant\b", body[m.end():ob]):
             raise Undecided("fn %s: loop #%d carries no invariant from the template (loop added or moved); undecided, not a violation" % (name, k))
         i = m.end()
+
+
+def splice_afterloops(body, afterloops, name):
+    """Insert a ghost statement right after the closing brace of the n-th loop (1-based, textual order).  Keyed by the loop's
+    ordinal, not by the text of the statement that follows it, so that harmless edits of that statement do not lose the anchor."""
+    i = 1
+    k = 0
+    ends = {}
+    while True:
+        m = find_code(body, r"\b(while|for|loop)\b", i)
+        if not m:
+            break
+        k += 1
+        ob = first_brace_at_depth0(body, m.end())
+        ends[k] = match_close(body, ob, "{", "}")
+        i = m.end()
+    missing = [n for n in afterloops if n not in ends]
+    if missing:
+        raise Undecided("lost anchor: fn %s has no loop #%s" % (name, missing))
+    res = body
+    for n in sorted(afterloops, key=lambda n: -ends[n]):
+        res = res[:ends[n] + 1] + "\n" + afterloops[n] + "\n" + res[ends[n] + 1:]
+    return res
 
 
 def splice_invariants(body, invariants, name):
